@@ -16,9 +16,13 @@ Python never judges: it evaluates the expression trees exported from the specifi
 with exact rational arithmetic (vh/cosmolat.py) and records.
 """
 import copy as _copy
+import gc
 import json
 import os
 import pickle
+import shutil
+import subprocess
+import sys
 import tempfile
 import warnings
 from concurrent.futures import ThreadPoolExecutor
@@ -48,6 +52,9 @@ BOUNDS = {
         # lengths at and across the 65536-element block boundaries, every quantity in every array form
         scale=dict(ScaleLens={65535, 65536, 65537, 131072, 1048576}),
         threads=dict(nthreads=6, rounds=4, n=120000),
+        # sessions over twin objects in one process: every 4-step session over 4 twins, every 5-step session over 2
+        world=[dict(KIdx={1, 2, 3, 4}, MaxSteps=4, Kinds={"copy", "pickle"}, Cover=True),
+               dict(KIdx={1, 4}, MaxSteps=5, Kinds={"deepcopy", "pickle"}, Cover=True)],
         nrandom=300),
     "thorough": dict(
         ctor=dict(OmIdx=ALL_OM, CurvIdx=ALL_CURV, HIdx=ALL_H, HMix=False),
@@ -58,6 +65,8 @@ BOUNDS = {
         scale=dict(ScaleLens={4099, 65521, 65535, 65536, 65537, 131071, 131072, 131073, 196608, 262144, 1048575, 1048576, 1048577,
                               2097152}),
         threads=dict(nthreads=8, rounds=8, n=250000),
+        world=[dict(KIdx={1, 2, 3, 4, 5, 6}, MaxSteps=4, Kinds={"copy", "copy.copy", "deepcopy", "pickle"}, Cover=False),
+               dict(KIdx={1, 2, 4, 6}, MaxSteps=5, Kinds={"copy", "deepcopy", "pickle"}, Cover=True)],
         nrandom=6000),
 }
 DEFAULTS = dict(OmIdx={1}, CurvIdx={1}, HIdx={1}, HMix=False, ZIdx={1}, ChainLen=3, Quants={"Dc"}, Dts={"f8"}, Lays={"contig"}, MaxLen=1,
@@ -365,6 +374,197 @@ def run_threads(item):
     return {"id": i, "t": "threads", "q": q, "form": form, "nthreads": T, "mism": mism, "err": err, "case": dict(c, ck=ck)}
 
 
+# ---- world sessions: several twin objects in ONE process, judged against the fresh world ------------------------------
+HARNESS = os.path.dirname(os.path.dirname(os.path.dirname(os.path.abspath(__file__))))
+WORLD_DEFAULTS = dict(KIdx={1}, MaxObj=3, MaxSteps=4, Kinds={"copy"}, WIdx=set(range(1, 13)), Cover=True, DoExport=False, Deviate=False)
+_FNAME = {"H0": "H0", "h": "h", "om": "omega_m", "ol": "omega_l", "ok": "omega_k"}
+CLIGHT = float(lat.frac([149896229, 500]))          # Cosmo.tla CCLight
+
+
+def twin_kwargs(args, f, k):
+    """constructor keywords of the twin k of args' field f: the lattice value times (1 + k 1e-9), as the nearest binary64"""
+    from fractions import Fraction
+    kw = ctor_kwargs(args, 0)
+    kw[_FNAME[f]] = float(lat.frac(args[f]) * (1 + Fraction(int(k), 10 ** 9)))
+    return kw
+
+
+def twin_given(args, kw):
+    """what the getters have to return for these keywords (single reading of the arguments: CTwinLive)"""
+    H0 = 100.0 * kw["h"] if "h" in kw else kw.get("H0", 100.0)
+    om = kw.get("omega_m", 0.3)
+    curved = (not args["flat"]) and not _isnone(args["ok"]) and args["ok"][0] != 0
+    ol, ok = (kw.get("omega_l", 0.7), kw["omega_k"]) if curved else (1.0 - om, 0.0)
+    return [H0, CLIGHT / H0, float(not curved), om, ol, ok]
+
+
+def world_session(job):
+    """execute one session (list of steps) in this process; returns the raw observation of every step"""
+    from esutil.cosmology import Cosmo
+    args, f, za, zb = job["args"], job["f"], float(lat.frac(job["a"])), float(lat.frac(job["b"]))
+    objs, out = {}, []
+    with warnings.catch_warnings():
+        warnings.simplefilter("ignore")
+        for n, s in enumerate(job["steps"]):
+            o = {"err": "none"}
+            try:
+                if s["op"] == "new":
+                    objs[s["o"]] = Cosmo(**twin_kwargs(args, f, s["k"]))
+                elif s["op"] == "copy":
+                    objs[s["o"]] = _do_copy(s["kind"], objs[s["src"]], n)
+                elif s["op"] == "drop":
+                    del objs[s["o"]]
+                    gc.collect()
+                elif s["op"] == "probe":
+                    obj = objs[s["o"]]
+                    o["params"] = [float(v).hex() for v in raw_params(obj)]
+                    o["calls"] = battery(obj)
+                    with np.errstate(all="ignore"):
+                        o["dc"] = float(obj.Dc(za, zb)).hex()
+                    # the exact oracle at the twin's own parameters (the binary64 numbers it was given, as exact rationals)
+                    from fractions import Fraction
+                    k, _ = _birth(job["steps"], s["o"])
+                    g = twin_given(args, twin_kwargs(args, f, k))
+                    pars = {n: [Fraction(v).numerator, Fraction(v).denominator] for n, v in zip(("H0", "DH", "flat", "om", "ol", "ok"), g)}
+                    ev = lat.Evaluator(obj, lat.frac(job["a"]), lat.frac(job["b"]), NODER, pars)
+                    o["res"], o["resinfo"] = {}, {}
+                    for name in WORLD_IDENTS:
+                        o["res"][name], o["resinfo"][name] = ev.residual(job["idents"][name])
+                else:
+                    raise ValueError(s["op"])
+            except Exception as e:  # noqa
+                o["err"] = type(e).__name__
+            out.append(o)
+    return out
+
+
+WORLD_IDENTS = ("gl5", "gl5_alt", "gl5_coarse", "dc")
+NORES = {n: [0, 0] for n in WORLD_IDENTS}
+
+
+def _birth(steps, o):
+    """the fresh-world session that makes object o and probes it: its twin and the copy kinds that led to it"""
+    st = next(s for s in steps if s["op"] in ("new", "copy") and s["o"] == o)
+    if st["op"] == "new":
+        return st["k"], ()
+    k, kinds = _birth(steps, st["src"])
+    return k, kinds + (st["kind"],)
+
+
+def _birth_session(k, kinds):
+    steps = [{"op": "new", "o": 1, "k": k, "src": 0, "kind": "na"}]
+    for j, kd in enumerate(kinds):
+        steps.append({"op": "copy", "o": j + 2, "k": 0, "src": j + 1, "kind": kd})
+    steps.append({"op": "probe", "o": len(kinds) + 1, "k": 0, "src": 0, "kind": "na"})
+    return steps
+
+
+def fresh_world(tree, jobs):
+    """every job (session) in a process of its own, forked from a freshly started interpreter that has imported esutil
+    and built no Cosmo"""
+    if not jobs:
+        return []
+    d = tempfile.mkdtemp(prefix="C11-world-", dir="/tmp")
+    try:
+        nproc = max(1, min(16, os.cpu_count() or 1, int(os.environ.get("VH_MAX_WORKERS", "16"))))
+        with open(os.path.join(d, "in.json"), "w") as fh:
+            json.dump({"tree": tree, "jobs": jobs, "nproc": nproc}, fh)
+        env = dict(os.environ)
+        env["PYTHONPATH"] = os.pathsep.join([tree, HARNESS] + ([env["PYTHONPATH"]] if env.get("PYTHONPATH") else []))
+        r = subprocess.run([sys.executable, "-c", "from vh.adapters import c11; c11._world_main(%r)" % d], env=env,
+                           stdout=subprocess.PIPE, stderr=subprocess.PIPE, text=True, timeout=3000)
+        outp = os.path.join(d, "out.json")
+        if r.returncode != 0 or not os.path.exists(outp):
+            raise MachineryError("fresh-world runner failed (rc %s): %s" % (r.returncode, (r.stderr or r.stdout)[-1500:]))
+        with open(outp) as fh:
+            res = json.load(fh)
+        if len(res) != len(jobs):
+            raise MachineryError("fresh-world runner returned %d results for %d sessions" % (len(res), len(jobs)))
+        return res
+    finally:
+        shutil.rmtree(d, ignore_errors=True)
+
+
+def _world_main(d):
+    """entry point of the fresh interpreter (see fresh_world)"""
+    import multiprocessing as mp
+    with open(os.path.join(d, "in.json")) as fh:
+        req = json.load(fh)
+    import esutil
+    import esutil.cosmology  # noqa
+    if not os.path.realpath(esutil.__file__).startswith(os.path.realpath(req["tree"])):
+        sys.exit("esutil imported from %s, not from %s" % (esutil.__file__, req["tree"]))
+    with mp.get_context("fork").Pool(max(1, min(req["nproc"], len(req["jobs"]))), maxtasksperchild=1) as pool:
+        res = pool.map(world_session, req["jobs"], chunksize=1)
+    with open(os.path.join(d, "out.json.tmp"), "w") as fh:
+        json.dump(res, fh)
+    os.replace(os.path.join(d, "out.json.tmp"), os.path.join(d, "out.json"))
+
+
+def _ulps(x, want):
+    if x == want:
+        return 0
+    if not (np.isfinite(x) and np.isfinite(want)):
+        return -1
+    from fractions import Fraction
+    q = abs(Fraction(x) - Fraction(want)) / (lat.ULP * max(abs(Fraction(want)), 1))
+    return int(min(lat.CAP, -((-q.numerator) // q.denominator)))
+
+
+def run_world(tree, items):
+    """items: (id, case).  Every session in its own pristine process; every object of a session also alone in a pristine
+    process (the fresh world); the record relates the two (implementation outputs) and the getters to the given values"""
+    refkeys, jobs = {}, []
+    if not all(n in IDENTS for n in WORLD_IDENTS):
+        raise MachineryError("identity catalogue not loaded before the world sessions")
+    idents = {n: IDENTS[n] for n in WORLD_IDENTS}
+    for _, c in items:
+        jobs.append({"args": c["args"], "f": c["f"], "a": c["a"], "b": c["b"], "steps": c["steps"], "idents": idents})
+    for _, c in items:
+        for s in c["steps"]:
+            if s["op"] == "probe":
+                key = (json.dumps(c["args"], sort_keys=True), c["f"]) + _birth(c["steps"], s["o"])
+                if key not in refkeys:
+                    refkeys[key] = len(jobs)
+                    jobs.append({"args": c["args"], "f": c["f"], "a": c["a"], "b": c["b"], "steps": _birth_session(key[2], key[3]),
+                                 "idents": idents})
+    res = fresh_world(tree, jobs)
+    recs = []
+    for n, (i, c) in enumerate(items):
+        obs, info, lastdc = [], [], {}
+        for s, o in zip(c["steps"], res[n]):
+            ob = {"err": o["err"], "dev": 0, "same_params": True, "same_calls": True, "res": o.get("res") or dict(NORES)}
+            if s["op"] == "probe" and o["err"] == "none":
+                k, kinds = _birth(c["steps"], s["o"])
+                ref = res[refkeys[(json.dumps(c["args"], sort_keys=True), c["f"], k, kinds)]][-1]
+                got = [float.fromhex(v) for v in o["params"]]
+                want = twin_given(c["args"], twin_kwargs(c["args"], c["f"], k))
+                devs = [_ulps(x, w) for x, w in zip(got, want)]
+                ob["dev"] = -1 if min(devs) < 0 else max(devs)
+                ob["same_params"] = bool(ref["err"] == "none" and ref["params"] == o["params"])
+                ob["same_calls"] = bool(ref["err"] == "none" and ref["calls"] == o["calls"] and ref["dc"] == o["dc"])
+                lastdc[s["o"]] = float.fromhex(o["dc"])
+                info.append({"step": len(obs) + 1, "o": s["o"], "twin": k, "given": [repr(w) for w in want], "got": [repr(x) for x in got],
+                             "dc": repr(lastdc[s["o"]]), "fresh_world_dc": repr(float.fromhex(ref["dc"])) if ref["err"] == "none" else ref["err"],
+                             "battery_differs": [BATTERY[j][0] for j in range(len(BATTERY))
+                                                 if ref["err"] == "none" and ref["calls"][j] != o["calls"][j]],
+                             "residuals": o.get("resinfo")})
+            elif s["op"] == "probe":
+                ob["dev"], ob["same_params"], ob["same_calls"] = -1, False, False
+            obs.append(ob)
+        probed = sorted({s["o"] for s in c["steps"] if s["op"] == "probe"})
+        signs = []
+        for x in probed:
+            for y in probed:
+                if x < y:
+                    dx, dy = lastdc.get(x), lastdc.get(y)
+                    ok = dx is not None and dy is not None and np.isfinite(dx) and np.isfinite(dy)
+                    signs.append([x, y, int((dx > dy) - (dx < dy)) if ok else 2])
+        recs.append({"id": i, "t": "world", "args": c["args"], "f": c["f"], "a": c["a"], "b": c["b"], "steps": c["steps"], "obs": obs,
+                     "signs": signs, "info": info, "case": dict(c)})
+    return recs
+
+
 RUNNERS = {"ctor": run_ctor, "scalar": run_scalar, "dispatch": run_dispatch, "copy": run_copy, "scale": run_scale,
            "threads": run_threads}
 TRACE_FIELDS = {"ctor": ("id", "t", "args", "err", "rep"),
@@ -372,7 +572,8 @@ TRACE_FIELDS = {"ctor": ("id", "t", "args", "err", "rep"),
                 "dispatch": ("id", "t", "q", "sa", "sb", "pairs", "obs"),
                 "copy": ("id", "t", "args", "chain", "err", "rep0", "steps"),
                 "scale": ("id", "t", "q", "form", "n", "block", "obs"),
-                "threads": ("id", "t", "q", "form", "nthreads", "mism")}
+                "threads": ("id", "t", "q", "form", "nthreads", "mism"),
+                "world": ("id", "t", "args", "f", "a", "b", "steps", "obs", "signs")}
 
 
 def run_any(item):
@@ -436,6 +637,8 @@ def signature(r, clause):
         return "%s|%s|%s" % (r["q"], clause, cls)
     if t == "threads":
         return "%s|%s|%s" % (r["q"], clause, r["form"])
+    if t == "world":
+        return "Cosmo()|%s|twin_of=%s" % (clause, _FNAME.get(r["f"], r["f"]))
     if t == "copy":
         bad = next(((k, s) for k, s in zip(r["chain"], r["steps"]) if s["err"] != "none" or not s["same_params"]
                     or not s["same_dist"] or s["rep"] != r["rep0"]), None)
@@ -463,6 +666,8 @@ def judge(ctx, recs, what, only_clause=None):
                               bad_samples=[x[0] for x in r["obs"]["samples"] if not x[3]][:8])
             elif r["t"] == "threads":
                 detail = {"mismatching_rounds_per_thread": r["mism"], "err": r["err"]}
+            elif r["t"] == "world":
+                detail = {"probes": r["info"], "signs": r["signs"], "obs": r["obs"]}
             else:
                 detail = r.get("raw") or r.get("obs") or r.get("steps")
             ctx.violation(signature(r, cl), "Cosmo.tla clause %s not satisfied by the real code (%s record)" % (cl, r["t"]),
@@ -595,6 +800,16 @@ def run(ctx):
     ctx.tlc("CosmoMC.tla", what="3 threads on one shared object, every interleaving of the atomic steps: ThreadsSequential",
             cfg_text=cfg(constants=_consts(Quants={"sigmacritinv"}, NThreads=3), next_="NextThreads", invariants=["ThreadsSequential"]),
             workers=W, require=["ChooseThreadsQ", "TStep"], timeout=3000)
+    for wb in B["world"]:
+        ctx.tlc("CosmoWorldMC.tla", what="world machine: sessions of %d steps over twin objects, every probe = fresh world (WorldFresh, WorldFold, TwinLaw)" % wb["MaxSteps"],
+                cfg_text=cfg(constants=dict(WORLD_DEFAULTS, **wb), next_="Next", invariants=["WorldFresh", "WorldFold", "TwinLaw"]),
+                workers=W, require=["New", "Copy", "Drop", "Probe"], timeout=3000)
+    r = ctx.tlc("CosmoWorldMC.tla", what="self-test: a module-level memo of structs keyed by 6 significant digits violates WorldFresh",
+                cfg_text=cfg(constants=dict(WORLD_DEFAULTS, KIdx={1, 4}, Kinds={"copy", "pickle"}, Deviate=True), next_="Next",
+                             invariants=["WorldFresh", "WorldFold"]),
+                workers=1, allow_violation=True, coverage=False, timeout=3000)
+    if "WorldFresh" not in set(r.violated) or "WorldFold" in set(r.violated):
+        raise MachineryError("self-test failed: deviating world mechanism not caught (%s)" % r.violated)
     # 1b. the invariants bite: a pickle that drops the explicit omega_l / a loop bound taken from the other array
     r = ctx.tlc("CosmoMC.tla", what="self-test: deviating mechanisms violate the refinement invariants",
                 cfg_text=cfg(constants=_consts(Deviate=True, OmIdx={2}, CurvIdx={1, 5}, HIdx={2}, Quants={"Dc"}, Dts={"f8"}, Lays={"contig"}, MaxLen=2), next_="Next",
@@ -610,6 +825,17 @@ def run(ctx):
     disp_cases, _ = export(ctx, "export dispatch cases", "NextDispatchExport", "ExportDispatch", _consts(**B["dispatch"]), "Quants")
     scale_cases, _ = export(ctx, "export scale cases", "NextScaleExport", "ExportScale", _consts(Quants=ALL_Q, **B["scale"]))
     thr_cases, _ = export(ctx, "export concurrency cases", "ChooseThreadsQ", "ExportThreads", _consts(Quants=ALL_Q))
+    world_cases, seen_w = [], set()
+    for wb in B["world"]:
+        rw = ctx.tlc("CosmoWorldMC.tla", what="export world sessions (%d steps)" % wb["MaxSteps"], workers=1, coverage=False, timeout=3000,
+                     cfg_text=cfg(constants=dict(WORLD_DEFAULTS, **dict(wb, DoExport=True)), next_="Next", constraints=["ExportWorld"]))
+        if rw.garbled or not rw.records.get("CASE"):
+            raise MachineryError("world sessions not exported")
+        for c in _tag(rw.records["CASE"], "world"):
+            key = json.dumps(c, sort_keys=True)
+            if key not in seen_w:
+                seen_w.add(key)
+                world_cases.append(c)
     scale_cases = sorted(_tag(scale_cases, "scale"), key=lambda c: (-c["n"], c["q"], c["form"]))      # big ones first (load balance)
     thr_cases = [dict(c, **B["threads"]) for c in sorted(_tag(thr_cases, "threads"), key=lambda c: (c["q"], c["form"]))]
     if not idents:
@@ -628,6 +854,10 @@ def run(ctx):
     # concurrency cases run one after the other in this process (their threads need the cores to themselves)
     thr_items = list(enumerate(thr_cases, len(items) + 1))
     recs = recs + [run_threads(it) for it in thr_items]
+    # world sessions: each in a pristine process of its own (and each object alone in another: the fresh world)
+    world_recs = run_world(ctx.tree, list(enumerate(world_cases, len(items) + len(thr_items) + 1)))
+    recs = recs + world_recs
+    ctx.log("executed %d world sessions (%d probes)" % (len(world_recs), sum(len(r["info"]) for r in world_recs)))
     ctx.log("executed %d scale cases and %d concurrency cases (%d threads x %d rounds x %d elements)" %
             (len(scale_cases), len(thr_cases), B["threads"]["nthreads"], B["threads"]["rounds"], B["threads"]["n"]))
     for r in recs:
@@ -640,7 +870,7 @@ def run(ctx):
                 demanded.update(o["need"])
     if set(IDENTS) - demanded:
         raise MachineryError("vacuous: identities never demanded by an exported case: %s" % sorted(set(IDENTS) - demanded))
-    for t in ("scalar", "ctor", "copy", "dispatch", "scale", "threads"):
+    for t in ("scalar", "ctor", "copy", "dispatch", "scale", "threads", "world"):
         r = next(x for x in recs if x["t"] == t)
         ctx.sample({k: v for k, v in trace_view(r).items() if k != "der"})
     # 3. code -> spec
@@ -670,23 +900,29 @@ def run(ctx):
                 "%d (quantity, representation of zmin, representation of zmax) dispatch cases (%s of 108 representations: python / numpy "
                 "scalars, lists, tuples, ndarrays f8 f4 i8 i4 >f8 >f4 >i8 x contiguous / strided / reversed / 0-d / Fortran 2-d, lengths 1..3) "
                 "%d scale cases (every quantity x array form x lengths %s, judged through the concatenation law), %d concurrency cases "
-                "(every quantity x array form, %d threads x %d rounds on one shared object) - all exported by TLC - plus %d seeded cases "
+                "(every quantity x array form, %d threads x %d rounds on one shared object), %d world sessions (up to 3 twin objects differing "
+                "in the 7th-9th digit of one parameter, built / copied / dropped / probed in one pristine process) - all exported by TLC - plus %d seeded cases "
                 "on a finer lattice; a case is distinct by its abstract record" %
                 (len(ctor_cases), len(scal_cases), len(copy_cases), len(disp_cases),
                  "covering design" if B["dispatch"]["Pairing"] == "cover" else "full product",
                  len(scale_cases), sorted(B["scale"]["ScaleLens"]), len(thr_cases), B["threads"]["nthreads"], B["threads"]["rounds"],
-                 len(rnd_cases)))
+                 len(world_cases), len(rnd_cases)))
     ctx.exhaustive = True
     ctx.note(bounds={k: ({kk: sorted(vv) if isinstance(vv, set) else vv for kk, vv in v.items()} if isinstance(v, dict) else v)
                      for k, v in B.items()},
              identities=sorted(IDENTS), worst_relative_residual={k: float("%.3g" % v) for k, v in sorted(worst.items())},
              worst_residual_units={k: "%d %s" % (v, IDENTS[k]["unit"]) for k, v in sorted(worst_units.items())},
              cases=dict(ctor=len(ctor_cases), scalar=len(scal_cases), copy=len(copy_cases), dispatch=len(disp_cases), seeded=len(rnd_cases),
-                        scale=len(scale_cases), threads=len(thr_cases)))
+                        scale=len(scale_cases), threads=len(thr_cases), world=len(world_cases)))
     ctx.trusted_base = ctx.trusted_base + [
         "vh/cosmolat.py: exact Fraction evaluator of the spec's expression trees; sqrt/sinh/sin/log10/pi to >= 45 digits (decimal, isqrt)",
         "numpy.polynomial.legendre.leggauss as the reference Gauss-Legendre rule, validated on every run by exact monomial moments up to degree 2n-1"]
     ctx.assumptions = [
+        "world: a session (<= 5 steps over <= 3 twin objects of one argument record, twins = lattice value x (1 + k 1e-9), k in 0, 2, -30, 667, "
+        "-700, 20000) runs in ONE pristine process; 'fresh world' = the same object built alone in another pristine process; equality with it is "
+        "a relation between implementation outputs (bit-identical getters and battery of 17 calls); absolute anchors: getters vs the given "
+        "floats (<= 4 ulp) and the strict order of Dc(1/4, 3/2) between twins (Dc strictly decreasing in om, ol, ok, H0, h; law checked by TLC "
+        "on the lattice: TwinLaw), and the identities gl5 / gl5_coarse / dc evaluated with the twin's exact (binary64) parameters",
         "scale: arrays of 65535 .. 2^20 (2^21) elements tile a 3-entry value table; the large result is judged through the law 'elementwise calls "
         "commute with concatenation' (checked by TLC on the small scope): block-wise equal to the tiled 3-element result, equal to the "
         "concatenation of the results on 4099-element parts, and equal to scalar calls at the first / last element of every 65536-block",
@@ -787,12 +1023,39 @@ def selftest(ctx, recs, rejects):
         d["mism"][-1] = 1
         return i, d, "concurrent_ne_sequential"
 
+    def c_world_call():
+        i, d = pick("world", lambda r: r["id"] not in rejects)
+        d["obs"][-1]["same_calls"] = False
+        return i, d, "world_call_ne_fresh_world"
+
+    def c_world_given():
+        i, d = pick("world", lambda r: r["id"] not in rejects)
+        d["obs"][-1]["dev"] = 5
+        return i, d, "world_params_ne_given"
+
+    def c_world_ident():
+        i, d = pick("world", lambda r: r["id"] not in rejects)
+        d["obs"][-1]["res"]["dc"] = [5, 1]
+        return i, d, "twin_dc"
+
+    def c_world_order():
+        i, d = pick("world", lambda r: r["id"] not in rejects and any(x[2] != 0 for x in r["signs"]))
+        j = next(j for j, x in enumerate(d["signs"]) if x[2] != 0)
+        d["signs"][j][2] = 0
+        return i, d, "world_twin_order"
+
+    def c_world_pairs():
+        i, d = pick("world", lambda r: r["id"] not in rejects and len(r["signs"]) >= 1)
+        del d["signs"][0]
+        return i, d, "harness_world_pairs"
+
     def c_good():
         i, g = pick("scalar", lambda r: ok(r, "da"))
         return i, g, None
 
     plan = []
-    for mk in (c_ctor, c_da, c_dl, c_gt, c_eds, c_gl5, c_gl5alt, c_elem, c_len, c_copy, c_scale_block, c_scale_parts, c_scale_sample, c_threads, c_good):
+    for mk in (c_ctor, c_da, c_dl, c_gt, c_eds, c_gl5, c_gl5alt, c_elem, c_len, c_copy, c_scale_block, c_scale_parts, c_scale_sample, c_threads, c_world_call, c_world_given, c_world_ident,
+               c_world_order, c_world_pairs, c_good):
         try:
             plan.append(mk())
         except _Skip:
@@ -817,7 +1080,7 @@ def replay(ctx, case):
     clause, variant = case.pop("clause", None), case.pop("variant", 1)
     case.pop("observed", None)
     load_catalogue(ctx)
-    rec = run_any((variant, case))
+    rec = run_world(ctx.tree, [(1, case)])[0] if case.get("t") == "world" else run_any((variant, case))     # a world session: whole, in a pristine process
     rec["id"] = 1
     print("replay observed:", json.dumps({k: v for k, v in rec.items() if k not in ("case", "der")}, default=str)[:3000])
     judge(ctx, [rec], "replay", only_clause=clause)
